@@ -15,6 +15,8 @@
  *   life TYPE R C NF FORM REL K NLEAK (i j)* NPI pi*    start a vnacal_new_t
  *   add SID EP NOMAP SR SC SDIAG MR MC NMAP map* NVALS val*
  *   solve | addcal | apply DUT | saveeq | unrelated | compare REL | free
+ *   setf VALID        (the life line sets the vector itself unless REL is
+ *                      "nosetf")
  *   end
  */
 #include <complex.h>
@@ -41,7 +43,7 @@ static int g_debug;
 /* ---------------------------------------------------------------- script */
 
 enum { OP_LIFE, OP_ADD, OP_SOLVE, OP_ADDCAL, OP_APPLY, OP_SAVEEQ,
-       OP_UNRELATED, OP_COMPARE, OP_FREE };
+       OP_UNRELATED, OP_COMPARE, OP_FREE, OP_SETF };
 
 typedef struct step {
     int op;
@@ -202,6 +204,9 @@ static void load_script(const char *path)
 	    snprintf(st.rel, sizeof(st.rel), "%s", next_tok(&p));
 	} else if (strcmp(cmd, "free") == 0) {
 	    st.op = OP_FREE;
+	} else if (strcmp(cmd, "setf") == 0) {
+	    st.op = OP_SETF;
+	    st.k = next_int(&p);
 	} else {
 	    die("script: unknown command", cmd);
 	}
@@ -336,9 +341,32 @@ static void put_ret(int ok)
 
 /* ---------------------------------------------------------------- actions */
 
+static void do_setf(life_t *lp, int valid)
+{
+    double fv[MAXF + 1];
+    int rc;
+
+    if (!lp->alive)
+	return;
+    for (int f = 0; f < lp->nf; ++f)
+	fv[f] = lp->freq[f];
+    if (!valid) {
+	/* not ascending, or (single frequency) negative */
+	if (lp->nf >= 2)
+	    fv[lp->nf - 1] = fv[0];
+	else
+	    fv[0] = -1.0;
+    }
+    vt_cb_reset();
+    rc = CALL(vnacal_new_set_frequency_vector(lp->vnp, fv));
+    vt_put("{\"e\":\"SetF\",\"valid\":%d", valid);
+    put_ret(rc == 0);
+    vt_put("}");
+    vt_end_line();
+}
+
 static void do_life(life_t *lp, const step_t *sp)
 {
-    int rc;
     double fv[MAXF];
 
     memset(lp, 0, sizeof(*lp));
@@ -392,12 +420,8 @@ static void do_life(life_t *lp, const step_t *sp)
     lp->cal.nf = lp->nf;
     life_make_nets(lp);
 
-    vt_cb_reset();
-    rc = CALL(vnacal_new_set_frequency_vector(lp->vnp, fv));
-    vt_put("{\"e\":\"SetF\",\"valid\":1");
-    put_ret(rc == 0);
-    vt_put("}");
-    vt_end_line();
+    if (strcmp(sp->rel, "nosetf") != 0)
+	do_setf(lp, 1);
 }
 
 /* own B = M A for the given sub-matrix; a is k x k (or 1 x k) */
@@ -1138,6 +1162,7 @@ static void run_case(const char *script_id, const scase_t *cp, int index)
 	case OP_UNRELATED: do_unrelated(&lives[cur]); break;
 	case OP_COMPARE: do_compare(&lives[0], &lives[1], sp); break;
 	case OP_FREE:	life_free(&lives[cur]); break;
+	case OP_SETF:	do_setf(&lives[cur], sp->k); break;
 	}
     }
     life_free(&lives[0]);
